@@ -80,7 +80,8 @@ class LogElicitor:
 def profile_of(P):
     from socialchoicekit.profile_utils import StrictCompleteProfile
     from harness.common import relayout
-    return StrictCompleteProfile.of(relayout(np.array(P, dtype=np.int64)))
+    from harness.common import persist
+    return persist("elicP", relayout(np.array(P, dtype=np.int64)), StrictCompleteProfile.of)
 
 
 def run_rule(rule, P, vals, k, zero=True, tie_breaker="accept", memoize=True, cache=None, integer=False, el_zero=True, share=False,
